@@ -81,6 +81,15 @@ class Worker:
         return "<Worker %s>" % self.name
 
 
+class SuiteLikeWorker(Worker):
+    """Compares like unittest.TestSuite does: equal to every other one, and not hashable."""
+
+    def __eq__(self, other):
+        return isinstance(other, SuiteLikeWorker)
+
+    __hash__ = None
+
+
 # worker specs: (tests, raise_at)
 CONFIGS = {
     "w2": [([("a1", "addSuccess"), ("a2", "addFailure")], None), ([("b1", "addSkip")], None)],
@@ -90,6 +99,8 @@ CONFIGS = {
     "w2same": [([("a1", "addSuccess"), ("a2", "addFailure")], None), ([("b1", "addSkip")], None)],
     "w2none": [([("a1", "addSuccess")], None), ([("b1", "addError"), ("b2", "addSuccess")], None)],
     "w1empty": [([], None)],
+    # sub-suites that are plain-TestSuite-like: unhashable, and equal to one another
+    "w2suites": [([("a1", "addSuccess")], None, "suite"), ([("b1", "addFailure")], None, "suite")],
     "w2native": [([("a1", "addSuccess")], None), ([("b1", "addFailure"), ("b2", "addSkip")], None, "native")],
     "w2x2": [([("a1", "addSuccess"), ("a2", "addFailure")], None), ([("b1", "addSkip"), ("b2", "addError")], None)],
     "w3x1": [([("a1", "addSuccess")], None), ([("b1", "addFailure")], None), ([("c1", "addSkip")], None)],
@@ -105,7 +116,7 @@ def routes_of(config):
 
 
 def make_workers(config):
-    return [Worker("w%d" % i, spec[0], spec[1], native=len(spec) > 2) for i, spec in enumerate(CONFIGS[config])]
+    return [(SuiteLikeWorker if spec[2:] == ("suite",) else Worker)("w%d" % i, spec[0], spec[1], native=spec[2:] == ("native",)) for i, spec in enumerate(CONFIGS[config])]
 
 
 class Observer:
@@ -545,6 +556,7 @@ def plan(tier):
             out.append((kind, "w2raise", (2, 0), None, False))
             out.append((kind, "w1", (2, 1), None, False))
             out.append((kind, "w1empty", (99, 1), None, False))
+            out.append((kind, "w2suites", (1, 1), None, False))
             if kind == "csts":
                 out.append((kind, "w2same", (2, 0), None, False))
                 out.append((kind, "w2none", (2, 0), None, False))
